@@ -4,10 +4,15 @@ configurations built with these classes must equal those built with the original
 from pathlib import Path
 from typing import List, Optional
 
-from experimaestro import Annotated, Meta, Option, Param, default, help, pathgenerator
+from experimaestro import Annotated, Meta, Option, Param, default, field, help, pathgenerator
 
 from . import zoo
 from .zoo import Color, Level, Mode, Shade  # noqa: F401  (same enum classes: the enum's module is part of the signature)
+
+
+# classes that serve as the default value of a configuration-typed parameter (Node.dflt, Gen.dsub) do not get the
+# generated integer: it would trigger known finding cfg-default-unequal-after-generation in every class-edit pair
+_NO_GENERATED_INT = ("Leaf", "LeafB", "GenLeaf")
 
 
 def _extend(base):
@@ -24,6 +29,8 @@ def _extend(base):
             "zz_l": Param[List[int]],
             "zz_g": Annotated[Path, pathgenerator("zz.txt")],
             # ignored parameters declared together with a second annotation (documented forms)
+            # a generated parameter that is neither a path nor Meta: filled when the configuration is sealed
+            "zz_gi": Param[int],
             "zz_am": Annotated[Meta[int], default(3)],
             "zz_ao": Annotated[Option[str], help("an option with a help text")],
         },
@@ -33,7 +40,11 @@ def _extend(base):
         "zz_m": "x",
         "zz_l": [],
         "zz_ao": "o",
+        "zz_gi": field(default_factory=lambda: 1234),
     }
+    if base.__name__ in _NO_GENERATED_INT:
+        del ns["__annotations__"]["zz_gi"]
+        del ns["zz_gi"]
     return type(base.__name__, (base,), ns)
 
 
